@@ -25,6 +25,7 @@
 #define VF_MAXSZ 127
 #define VF_EXTRASZ 256
 #include "vf.h"
+#include "vf_str.h"
 #include "vf_tree.h"
 #define VF_MODEL_PRINTF
 #include "vf_libc.h"
